@@ -454,6 +454,18 @@ theorem single_field_cycles (fmt : Bytes) (fld : Field) (trailing : Bool)
     omega)
   simpa using this
 
+/-- formatting is a function of the operand's VALUE: the same operand given `k` times to a one-field format
+    prints `k` copies of one and the same text.  In the code this holds only as long as `NumberField.format`
+    works on a copy (`value.clone().iabs()`) and leaves the variable it was handed untouched; the check reads
+    variables and array elements back after every PRINT / PRINT# / LPRINT USING. -/
+theorem repeated_operand (fmt : Bytes) (fld : Field) (trailing : Bool)
+    (hf : parseField fmt = some (fld, [])) (h95 : fmt.head? ≠ some 95)
+    (a : Arg) (t : Bytes) (k : Nat) (ha : formatField fld a = some (.ok t)) :
+    printUsing fmt (List.replicate k a) trailing = some ⟨(List.replicate k t).flatten, .ok (!trailing)⟩ := by
+  have := single_field_cycles fmt fld trailing hf h95 (List.replicate k (a, t)) (by
+    intro p hp; rw [List.eq_of_mem_replicate hp]; exact ha)
+  simpa using this
+
 /-! ## 6. the three defects of the unrepaired code (models of the old code: `…Old`) -/
 
 /-- `PRINT USING "#.##^^^^"; 9.999`: the rounding carry of `to_decimal(2)` (99.99 → 100) was laid out as if
